@@ -187,9 +187,7 @@ func (e *Engine) checkDirect(r *relationTuple, restDepth int) checkgroup.CheckFu
 				WithField("method", "checkDirect").
 				WithError(err).
 				Error("failed to look up direct access in db")
-			resultCh <- checkgroup.Result{
-				Membership: checkgroup.NotMember,
-			}
+			resultCh <- checkgroup.Result{Err: errors.WithStack(err)}
 
 		case found:
 			resultCh <- checkgroup.Result{
